@@ -47,3 +47,16 @@ def decode_differences(classes, cases, sample=250, rnd=None, envs=None) -> tuple
                               "input": c["input"].hex()[:400], "default_interpreter": str(a)[:300], "this_interpreter": str(b)[:300]})
                 break
     return diffs, n
+
+
+def allocation_probe(classes, cases) -> list[dict]:
+    """cases: dicts with "cls", "input" (bytes), "what".  Each is decoded in a child with a 3 GiB address-space cap;
+    returns one record per case: outcome, traced peak bytes, seconds."""
+    idxs = sorted({c["cls"] for c in cases})
+    spec = {"mode": "alloc", "classes": {str(i): [classes[i].__module__, classes[i].__qualname__] for i in idxs},
+            "cases": [[c["cls"], c["input"].hex()] for c in cases]}
+    out, err = _run(spec, [], {})
+    if out is None:
+        return [{"what": "the allocation probe does not run", "detail": err, "outcome": "crash", "peak": 0, "seconds": 0, "input_bytes": 0}]
+    return [{"class": f"{classes[c['cls']].__module__}:{classes[c['cls']].__qualname__}", "what": c["what"], "input": c["input"].hex()[:200],
+             "input_bytes": len(c["input"]), "outcome": o[0] if o[0] == "ok" else o[1], "peak": o[2], "seconds": o[3]} for c, o in zip(cases, out)]
